@@ -143,17 +143,101 @@ class Origins:
         self.L = L
         self.cfg = L.cfg
 
+    KNOWN_KINDS = ("step", "reset", "param", "const")
+    repo = None        # set by the caller to follow fields of record objects (NamedTuple / dataclass constructions)
+
+    @classmethod
+    def unknown(cls, origins) -> list:
+        """Provenance atoms that are not protocol positions / parameters / constants (values this analysis cannot name)."""
+        return [x for x in origins if x[0] not in cls.KNOWN_KINDS]
+
+    def _record_field(self, e: ast.Attribute, at: int, seen):
+        """Origins of `rec.field` when every definition of `rec` reaching here is a construction of a plain record class."""
+        if self.repo is None or not isinstance(e.value, ast.Name):
+            return None
+        from .nf import NF
+        out = set()
+        defs = self.cfg.defs_of(at, e.value.id)
+        if not defs:
+            return None
+        for d in defs:
+            v, vat = None, d.node
+            if d.kind in ("assign", "walrus"):
+                v = d.value
+            elif d.kind == "unpack" and isinstance(d.value, (ast.Tuple, ast.List)) and len(d.path) == 1 and isinstance(d.path[0], int) and d.path[0] < len(d.value.elts):
+                v = d.value.elts[d.path[0]]
+            if not (isinstance(v, ast.Call) and isinstance(v.func, (ast.Name, ast.Attribute))):
+                return None
+            q = self.repo.resolve_expr(self.L.mi, v.func)
+            try:
+                node = self.repo.lookup(q)[1] if q and self.repo.has(q) else None
+            except Exception:
+                node = None
+            fields = NF._record_fields(node) if node is not None else None
+            if fields and isinstance(node, ast.ClassDef) and not any((isinstance(b, ast.Name) and b.id == "NamedTuple") or (isinstance(b, ast.Attribute) and b.attr == "NamedTuple") for b in node.bases) \
+                    and not any("frozen=True" in ast.unparse(dc) for dc in node.decorator_list):
+                return None       # a mutable record may have been changed since its construction
+            if not fields or e.attr not in fields or any(isinstance(a, ast.Starred) for a in v.args) or any(k.arg is None for k in v.keywords):
+                return None
+            bound = dict(zip(fields, v.args))
+            bound.update({k.arg: k.value for k in v.keywords})
+            if e.attr not in bound:
+                return None
+            out |= self.of_expr(bound[e.attr], vat, seen)
+        return out
+
     def of_expr(self, e: ast.AST, at: int, seen=None) -> set:
         e = strip_wrappers(e)
         if isinstance(e, ast.IfExp):
             return self.of_expr(e.body, at, seen) | self.of_expr(e.orelse, at, seen)
         if isinstance(e, ast.Name):
             return self.of_name(e.id, at, seen)
+        if isinstance(e, ast.Attribute):
+            r = self._record_field(e, at, seen)
+            if r is not None:
+                return r
         if isinstance(e, ast.Subscript) and self.L.is_reset_call(e.value) and isinstance(e.slice, ast.Constant):
             return {("reset", e.slice.value, at)}
         if isinstance(e, ast.Constant):
             return {("const", repr(e.value))}
         return {("expr", ast.unparse(e)[:60], at)}
+
+    def deps(self, e: ast.AST, at: int, seen=None, depth: int = 0) -> set:
+        """Protocol values an expression depends on (coarse: every name read in it, through definitions, loop iterables and
+        comprehensions).  Atoms: ("step", k), ("reset", k, node), ("param", name); ("unknown", name) when a name cannot be followed."""
+        seen = set() if seen is None else seen
+        out = set()
+        if depth > 10:
+            return {("unknown", "<deep>")}
+        bound = {t.id for c in ast.walk(e) if isinstance(c, ast.comprehension) for t in ast.walk(c.target) if isinstance(t, ast.Name)}
+        bound |= {a.arg for l in ast.walk(e) if isinstance(l, ast.Lambda) for a in l.args.args}
+        for x in ast.walk(e):
+            if not (isinstance(x, ast.Name) and isinstance(x.ctx, ast.Load)) or x.id in bound:
+                continue
+            ds = self.cfg.defs_of(at, x.id)
+            if not ds:
+                continue        # module-level name (function, constant)
+            for d in ds:
+                k = (d.node, d.name)
+                if k in seen:
+                    continue
+                seen.add(k)
+                if d.kind == "param":
+                    out.add(("param", d.name))
+                elif d.kind == "unpack" and d.node == self.L.step_node and len(d.path) == 1:
+                    out.add(("step", d.path[0]))
+                elif d.kind == "unpack" and self.L.is_reset_call(d.value) and len(d.path) == 1:
+                    out.add(("reset", d.path[0], d.node))
+                elif d.kind in ("funcdef", "classdef", "import"):
+                    continue
+                elif d.kind == "aug" and isinstance(d.value, ast.AugAssign):
+                    out |= self.deps(d.value.value, d.node, seen, depth + 1)
+                    out |= self.deps(ast.Name(id=d.name, ctx=ast.Load()), d.node, seen, depth + 1) if False else set()
+                elif isinstance(d.value, ast.AST) and not isinstance(d.value, ast.stmt):
+                    out |= self.deps(d.value, d.node, seen, depth + 1)
+                else:
+                    out.add(("unknown", d.name))
+        return out
 
     def of_name(self, name: str, at: int, seen=None) -> set:
         seen = set() if seen is None else seen
